@@ -241,3 +241,17 @@ def compare_Xs(mXs, rXs):
                             "point": p, "node": k, "model": ca_, "rockit": cb})
                 return dis
     return dis
+
+
+def extras_objvalue(B, case):
+    """ocp.value(ocp.objective): the public read-back of the cost"""
+    return [B.ocp.value(B.ocp.objective)]
+
+
+def extra_objvalue(B, case, ob, points, targets):
+    from . import nlp
+    out = []
+    for t in targets:
+        xs = nlp.solve_point(ob, t)
+        out.append(float(ob.extra_f(xs, ob.pval)))
+    return {"objvalue": out}
